@@ -101,6 +101,21 @@ func (e *Engine) verifyFunc(key string) (res *FuncResult) {
 		for _, u := range c.Uses {
 			x.applyUse(penv, c, u)
 		}
+		// vacuity guards: this return is reachable, and the antecedent of every implies(...) clause is reachable
+		x.obls = append(x.obls, &Obligation{Fn: x.key, Kind: "cover.return", Props: c.Props, PC: append([]*Term(nil), st2.pc...), Goal: False, Cover: true, PathID: x.pathID, Inputs: x.inputs})
+		for _, en := range c.Ensures {
+			if call, ok := en.Expr.(*ast.CallExpr); ok && funName(call.Fun) == "implies" && len(call.Args) == 2 {
+				ante := x.evalClause(penv, c, "ensures "+en.Label+" (antecedent)", call.Args[0])
+				if !ante.IsFalse() {
+					pc := append(append([]*Term(nil), st2.pc...), ante)
+					o := &Obligation{Fn: x.key, Kind: "cover.ante." + en.Label, Props: c.Props, PC: pc, Goal: False, Cover: true, PathID: x.pathID, Inputs: x.inputs}
+					if len(en.Props) > 0 {
+						o.Props = en.Props
+					}
+					x.obls = append(x.obls, o)
+				}
+			}
+		}
 		for _, en := range c.Ensures {
 			g := x.evalClause(penv, c, "ensures "+en.Label, en.Expr)
 			o := &Obligation{Fn: x.key, Kind: "post." + en.Label, Props: c.Props, PC: append([]*Term(nil), st2.pc...), Goal: g, PathID: x.pathID, Inputs: x.inputs}
